@@ -42,7 +42,17 @@ pub fn uid(args: &[&str]) -> String {
                 .map(|k| {
                     std::thread::spawn(move || {
                         let mut v = Vec::with_capacity(per);
+                        // a program that parses but is rejected late, in code generation (the uid it consumed is lost:
+                        // fine - but it must never be handed out again)
+                        let failing: String = format!(
+                            "(def (Report (x 0))) {} (when 5 (report))",
+                            "(when true (:= Report.x (+ Report.x 1)) (report))".repeat(150)
+                        );
                         for i in 0..per {
+                            if (i + 3 * k) % 4096 == 7 {
+                                let _ = portus::lang::compile(failing.as_bytes(), &[]);
+                                continue;
+                            }
                             let u = if (i + k) % 8 == 0 {
                                 portus::lang::compile(SRC.as_bytes(), &[]).map(|(_, sc)| sc.program_uid).unwrap_or(0)
                             } else {
